@@ -21,13 +21,14 @@ import (
 
 // "jailprobe": a handful of deterministic probes of the jail's set-up in mount layouts the random streams do
 // not build — each one came out of a seeded change that only shows there:
-//   shared   the root lies on a shared mount: nothing the jailed thread mounts may propagate back (C13-m5)
-//   nested   an unrelated shared mount with a mount nested in it: the detach of the old root must not take the
-//            host's mounts with it (C01-m7)
-//   slash    the root is "/" itself: the call must not change the working directory or umask the rest of the
-//            process sees (C13-m7)
-//   readonly the root lies on a read-only mount and the include list climbs with "..": either the call
-//            refuses, or what it archives comes from inside the root (C07-m7)
+//
+//	shared   the root lies on a shared mount: nothing the jailed thread mounts may propagate back (C13-m5)
+//	nested   an unrelated shared mount with a mount nested in it: the detach of the old root must not take the
+//	         host's mounts with it (C01-m7)
+//	slash    the root is "/" itself: the call must not change the working directory or umask the rest of the
+//	         process sees (C13-m7)
+//	readonly the root lies on a read-only mount and the include list climbs with "..": either the call
+//	         refuses, or what it archives comes from inside the root (C07-m7)
 func init() {
 	subcmds["jailprobe"] = runJailProbe
 	jobKinds["jailprobe"] = runJailProbeJob
